@@ -183,12 +183,9 @@ theorem check_fin_text (r : Rule) (hr : r ∈ wordRules ∨ r = .lparen ∨ r = 
 theorem boolTexts_char : BoolTexts charTS := by
   intro st t st' h
   have := check_fin_text .boolop (Or.inl (by decide)) st t st' h
-  have hw : (defOf .boolop).2.1 = [s_or, s_and] := by decide
-  rw [hw] at this
-  simp only [List.mem_cons, List.mem_nil_iff, or_false] at this
-  rcases this with rfl | rfl
-  · exact Or.inr rfl
-  · exact Or.inl rfl
+  -- whatever the order (or number) of the alternatives in the regenerated rule: each word is one of the two
+  have hw : ∀ w ∈ (defOf .boolop).2.1, w = s_and ∨ w = s_or := by decide
+  exact hw _ this
 
 /-- variables are canonical names, the operator is one of the ten -/
 def VarOpCanon (a : Atom) : Prop :=
